@@ -1049,6 +1049,109 @@ pub fn gen_struct(u: &mut Un, ix: usize) -> TypeIR {
     }
 }
 
+
+/// an `options` struct that embeds a parser-mode struct through `external`: the inner type's doc
+/// comment is its group help, its container annotations (fallback + debug_fallback, or hide_usage)
+/// apply to the whole group, and the group is one field among the outer type's own
+pub fn gen_nested(u: &mut Un, ix: usize) -> TypeIR {
+    let mut pools = Pools::new();
+    let inner = format!("Inner{}", ix);
+    let outer = format!("Outer{}", ix);
+    let fields = gen_fields(u, &mut pools, 3, false);
+    let inner_fn = snake(&inner);
+    let group = format!("Group doc of {}", inner);
+    let with_doc = u.chance(200);
+    let mut inner_attrs: Vec<String> = Vec::new();
+    let mut inner_tail = String::new();
+    let mut derive_default = false;
+    match u.below(4) {
+        0 | 1 => {
+            inner_attrs.push(format!("fallback({}::default())", inner));
+            inner_attrs.push("debug_fallback".into());
+            inner_tail = format!(".fallback({}::default()).debug_fallback()", inner);
+            derive_default = true;
+        }
+        2 => {
+            inner_attrs.push("hide_usage".into());
+            inner_tail = ".hide_usage()".into();
+        }
+        _ => {}
+    }
+    let mut src = String::new();
+    if with_doc {
+        src.push_str(&format!("/// {}\n", group));
+    }
+    src.push_str(if derive_default {
+        "#[derive(Debug, Clone, PartialEq, Bpaf, Default)]\n"
+    } else {
+        "#[derive(Debug, Clone, PartialEq, Bpaf)]\n"
+    });
+    if !inner_attrs.is_empty() {
+        src.push_str(&format!("#[bpaf({})]\n", inner_attrs.join(", ")));
+    }
+    if fields.named {
+        src.push_str(&format!("pub struct {} {{\n{}}}\n\n", inner, fields.derive_src("    ")));
+    } else {
+        src.push_str(&format!("pub struct {}(\n{});\n\n", inner, fields.derive_src("    ")));
+    }
+    let inner_first = u.bool();
+    let own = "    /// Outer flag help\n    zz_outer_flag: bool,\n";
+    let ext = format!("    #[bpaf(external({}))]\n    inner: {},\n", inner_fn, inner);
+    src.push_str("#[derive(Debug, Clone, PartialEq, Bpaf)]\n#[bpaf(options)]\n");
+    src.push_str(&format!(
+        "pub struct {} {{\n{}{}}}\n",
+        outer,
+        if inner_first { ext.as_str() } else { own },
+        if inner_first { own } else { ext.as_str() }
+    ));
+    let inner_twin = format!(
+        "{}{}{}",
+        fields.twin_src(&inner),
+        if with_doc {
+            format!(".group_help({})", lit(&group))
+        } else {
+            String::new()
+        },
+        inner_tail
+    );
+    let own_twin = "long(\"zz-outer-flag\").help(\"Outer flag help\").switch()";
+    let twin_src = format!(
+        "{{\n        let zz_outer_flag = {};\n        let inner = {};\n        construct!({} {{ {} }})\n    }}.to_options()",
+        own_twin,
+        inner_twin,
+        outer,
+        if inner_first { "inner, zz_outer_flag" } else { "zz_outer_flag, inner" }
+    );
+    let mut own_spec = crate::mk::named("", &["zz-outer-flag"], NamedKind::Switch);
+    own_spec.help = Some(DocSpec::plain("Outer flag help"));
+    let inner_node = if with_doc {
+        Node::GroupHelp(fields.node().b(), DocSpec::plain(group))
+    } else {
+        fields.node()
+    };
+    let body = if inner_first {
+        Node::Seq(vec![inner_node, Node::Named(own_spec)])
+    } else {
+        Node::Seq(vec![Node::Named(own_spec), inner_node])
+    };
+    TypeIR {
+        name: outer.clone(),
+        derive_src: src,
+        derived_fn: snake(&outer),
+        twin_src,
+        level: Level {
+            body,
+            info: InfoSpec::default(),
+        },
+        parser_mode: false,
+        implicit_rules: fields.fields.iter().map(|f| f.implicit_rules).sum::<usize>() + 2,
+        explicit_annotations: fields.fields.iter().filter(|f| f.explicit).count()
+            + inner_attrs.len()
+            + 2,
+        kind: "struct-with-external",
+    }
+}
+
 /// an enum type: unit variants, struct/tuple variants, command variants
 pub fn gen_enum(u: &mut Un, ix: usize) -> TypeIR {
     let mut pools = Pools::new();
@@ -1268,7 +1371,9 @@ pub fn gen_family(seed_bytes: &[u8], n: usize) -> Vec<TypeIR> {
             d.push((x >> 24) as u8);
         }
         let mut u = Un::new(&d);
-        let mut t = if u.chance(96) {
+        let mut t = if i % 8 == 7 {
+            gen_nested(&mut u, i)
+        } else if u.chance(96) {
             gen_enum(&mut u, i)
         } else {
             gen_struct(&mut u, i)
